@@ -362,6 +362,11 @@ class C15(Prop):
         gp = G @ (p * np.ones(nc))
         ex = -p * (alpha @ nrm).ravel("F")
         gscale = np.abs(G) @ (abs(p) * np.ones(nc)) + np.abs(ex)
+        # a component whose exact value is 0 (e.g. the z-component on a vertical prism face) may
+        # carry rounding noise of the size of the face's other components: measure it relative to
+        # the magnitude of the expected force vector of ITS face as well (rows are face-major);
+        # still no absolute floor.  Same rule as face_mag in coq/Model/C15.v.
+        gscale = gscale + np.repeat(np.abs(ex).reshape(-1, nd).sum(axis=1), nd)
         gbad = np.abs(gp - ex) > 1e-8 * gscale
         if gbad.any():
             q = int(np.argmax(np.abs(gp - ex) / np.where(gscale > 0, gscale, 1.0)))
